@@ -113,6 +113,9 @@ func lookupTests(fn *ssa.Function) []lookupTest {
 		}
 		out = append(out, lt)
 	}
+	if len(out) == 0 {
+		return inlineLookupTests(fn)
+	}
 	return out
 }
 
@@ -161,6 +164,9 @@ func c02Pools(p *Prog, r *Report) []poolInfo {
 func isAppendStore(st *ssa.Store) bool {
 	switch x := stripConv(st.Val).(type) {
 	case *ssa.Call:
+		if isSlicesDelete(x) {
+			return true
+		}
 		b, ok := x.Common().Value.(*ssa.Builtin)
 		return ok && b.Name() == "append"
 	case *ssa.Slice:
@@ -174,6 +180,9 @@ func isAppendStore(st *ssa.Store) bool {
 func appendGrows(st *ssa.Store) bool {
 	c, ok := stripConv(st.Val).(*ssa.Call)
 	if !ok {
+		return false
+	}
+	if isSlicesDelete(c) {
 		return false
 	}
 	_, isSlice := c.Common().Args[0].(*ssa.Slice)
@@ -1152,4 +1161,91 @@ func checkConfiguredWeightFollows(p *Prog, r *Report, rule string) {
 		}
 	}
 	r.Floor(rule, n, 1, "stores of a weight argument into an existing rebalancer record")
+}
+
+// isSlicesDelete: a call of slices.Delete / slices.DeleteFunc (an instantiation of the generic function).
+func isSlicesDelete(c *ssa.Call) bool {
+	f := c.Common().StaticCallee()
+	if f == nil {
+		return false
+	}
+	o := f.Origin()
+	if o == nil {
+		o = f
+	}
+	return o.Pkg != nil && o.Pkg.Pkg.Path() == "slices" && (o.Name() == "Delete" || o.Name() == "DeleteFunc")
+}
+
+// inlineLookupTests: the identity lookup written out in the routine itself — an index variable that starts
+// at -1 and is set inside a loop calling the pool's identity function, then compared with -1.
+func inlineLookupTests(fn *ssa.Function) []lookupTest {
+	var out []lookupTest
+	var idCall *ssa.Call
+	for _, c := range Calls(fn) {
+		call, ok := c.(*ssa.Call)
+		if !ok {
+			continue
+		}
+		g := call.Common().StaticCallee()
+		if g == nil || g.Signature.Params().Len() != 2 || g.Signature.Results().Len() != 1 || len(loopBlocks(call.Block())) == 0 {
+			continue
+		}
+		if typeIs(g.Signature.Params().At(0).Type(), "net/url", "URL") && typeIs(g.Signature.Params().At(1).Type(), "net/url", "URL") && isPlainBasic(types.Bool)(g.Signature.Results().At(0).Type()) {
+			idCall = call
+		}
+	}
+	if idCall == nil {
+		return nil
+	}
+	for _, ifi := range ifs(fn) {
+		cnd, pos := condStrip(ifi.Cond)
+		bo, ok := cnd.(*ssa.BinOp)
+		if !ok || (bo.Op != token.EQL && bo.Op != token.NEQ) {
+			continue
+		}
+		if k, ok := constInt(bo.Y); !ok || k != -1 {
+			continue
+		}
+		ph, ok := stripConv(bo.X).(*ssa.Phi)
+		if !ok {
+			continue
+		}
+		hasInit, fromLoop := false, false
+		var walk func(v ssa.Value, d int)
+		seen := map[ssa.Value]bool{}
+		walk = func(v ssa.Value, d int) {
+			if d > 6 || seen[v] {
+				return
+			}
+			seen[v] = true
+			if k, ok := constInt(v); ok && k == -1 {
+				hasInit = true
+				return
+			}
+			if p2, ok := v.(*ssa.Phi); ok {
+				for _, e := range p2.Edges {
+					walk(e, d+1)
+				}
+				return
+			}
+			if in, ok := v.(ssa.Instruction); ok && loopBlocks(idCall.Block())[in.Block()] {
+				fromLoop = true
+			}
+		}
+		walk(ph, 0)
+		if !hasInit || !fromLoop {
+			continue
+		}
+		lt := lookupTest{call: idCall}
+		eqOnTrue := (bo.Op == token.EQL) == pos
+		if eqOnTrue {
+			lt.notFound = append(lt.notFound, Edge{ifi.Block(), 0})
+			lt.found = append(lt.found, Edge{ifi.Block(), 1})
+		} else {
+			lt.notFound = append(lt.notFound, Edge{ifi.Block(), 1})
+			lt.found = append(lt.found, Edge{ifi.Block(), 0})
+		}
+		out = append(out, lt)
+	}
+	return out
 }
